@@ -10,7 +10,13 @@ package main
 //	crash <capMB> <node> <ops> <k> | ok <observation after reopening>      (same observation format as a history step)
 import (
 	"fmt"
+	"io"
 	"strconv"
+	"sync"
+	"sync/atomic"
+
+	"os"
+	"strings"
 
 	"github.com/cockroachdb/pebble"
 	"github.com/cockroachdb/pebble/vfs"
@@ -72,7 +78,236 @@ func stCrash(c *Ctx, capMB uint64, node [32]byte, ops []stOp, k int) {
 	c.Emit("%s | %s", head, out)
 }
 
+// ---------------------------------------------------------------- crash points at file-system-operation granularity
+//
+//	fscrash <capMB> <node> <ops> <k> <d|k> | ok <puts done> <puts started> <observation after reopening>
+//
+// pebble runs on a strict in-memory file system behind cntFS, which counts every state-changing file-system operation
+// (create, write, sync, rename, remove, link, mkdir, reuse).  Just before the k-th operation the world stops (all
+// operations in flight have completed, no new one starts): a clone of the file system with ALL written bytes is taken
+// (image `k`: the process dies, unsynced writes kept) and syncs are ignored from that moment, so that after the run
+// ResetToSyncedState leaves exactly what had been synced before operation k (image `d`: unsynced writes dropped).
+// Both images are reopened through NewStorage.  The operation order is not deterministic (pebble's background
+// goroutines), so k names the k-th operation of this run.
+type cntFS struct {
+	vfs.FS
+	mem     *vfs.MemFS
+	mu      sync.RWMutex
+	n       atomic.Int64
+	k       int64
+	crashed atomic.Bool
+	onCrash func()
+}
+
+func (f *cntFS) op(run func()) {
+	if f.n.Add(1) == f.k {
+		f.crashNow()
+	}
+	f.mu.RLock()
+	run()
+	f.mu.RUnlock()
+}
+
+func (f *cntFS) crashNow() {
+	f.mu.Lock()
+	if !f.crashed.Load() {
+		f.onCrash()
+		f.crashed.Store(true)
+	}
+	f.mu.Unlock()
+}
+
+func (f *cntFS) wrap(file vfs.File, err error) (vfs.File, error) {
+	if err != nil {
+		return nil, err
+	}
+	return &cntFile{File: file, fs: f}, nil
+}
+func (f *cntFS) Create(name string) (file vfs.File, err error) {
+	f.op(func() { file, err = f.wrap(f.FS.Create(name)) })
+	return
+}
+func (f *cntFS) Link(o, n string) (err error) { f.op(func() { err = f.FS.Link(o, n) }); return }
+func (f *cntFS) Remove(n string) (err error)  { f.op(func() { err = f.FS.Remove(n) }); return }
+func (f *cntFS) RemoveAll(n string) (err error) {
+	f.op(func() { err = f.FS.RemoveAll(n) })
+	return
+}
+func (f *cntFS) Rename(o, n string) (err error) { f.op(func() { err = f.FS.Rename(o, n) }); return }
+func (f *cntFS) ReuseForWrite(o, n string) (file vfs.File, err error) {
+	f.op(func() { file, err = f.wrap(f.FS.ReuseForWrite(o, n)) })
+	return
+}
+func (f *cntFS) MkdirAll(d string, perm os.FileMode) (err error) {
+	f.op(func() { err = f.FS.MkdirAll(d, perm) })
+	return
+}
+func (f *cntFS) Open(name string, opts ...vfs.OpenOption) (vfs.File, error) {
+	return f.wrap(f.FS.Open(name, opts...))
+}
+func (f *cntFS) OpenReadWrite(name string, opts ...vfs.OpenOption) (vfs.File, error) {
+	return f.wrap(f.FS.OpenReadWrite(name, opts...))
+}
+func (f *cntFS) OpenDir(name string) (vfs.File, error) { return f.wrap(f.FS.OpenDir(name)) }
+func (f *cntFS) Lock(name string) (io.Closer, error)   { return f.FS.Lock(name) }
+
+type cntFile struct {
+	vfs.File
+	fs *cntFS
+}
+
+func (c *cntFile) Write(p []byte) (n int, err error) {
+	c.fs.op(func() { n, err = c.File.Write(p) })
+	return
+}
+func (c *cntFile) WriteAt(p []byte, off int64) (n int, err error) {
+	c.fs.op(func() { n, err = c.File.WriteAt(p, off) })
+	return
+}
+func (c *cntFile) Sync() (err error)     { c.fs.op(func() { err = c.File.Sync() }); return }
+func (c *cntFile) SyncData() (err error) { c.fs.op(func() { err = c.File.SyncData() }); return }
+func (c *cntFile) SyncTo(l int64) (full bool, err error) {
+	c.fs.op(func() { full, err = c.File.SyncTo(l) })
+	return
+}
+
+func newStrictDB() *vfs.MemFS {
+	fs := vfs.NewStrictMem()
+	if err := fs.MkdirAll("db", 0755); err != nil {
+		panic(err)
+	}
+	if root, err := fs.OpenDir("/"); err == nil {
+		_ = root.Sync()
+		_ = root.Close()
+	}
+	return fs
+}
+
+// one run of the history with a crash just before operation k (k = 0: no crash; returns the number of operations)
+func fsCrashRun(c *Ctx, capMB uint64, node [32]byte, ops []stOp, k int64, emit bool) int64 {
+	head := fmt.Sprintf("fscrash %d %s %s %d", capMB, hx(node[:]), opsString(ops), k)
+	var outD, outK string
+	var total int64
+	p, msg := guard(func() {
+		mem := newStrictDB()
+		var done, started atomic.Int64
+		var cdone, cstarted int64
+		var kept *vfs.MemFS
+		cf := &cntFS{FS: mem, mem: mem, k: k}
+		cf.onCrash = func() {
+			cdone, cstarted = done.Load(), started.Load()
+			kept = vfs.NewMem()
+			if _, err := vfs.Clone(mem, kept, "db", "db"); err != nil {
+				panic("clone: " + err.Error())
+			}
+			mem.SetIgnoreSyncs(true)
+		}
+		s, err := memOpen(cf, capMB, node)
+		if err != nil {
+			panic("open: " + err.Error())
+		}
+		for _, o := range ops {
+			if cf.crashed.Load() {
+				break
+			}
+			if o.kind == 'p' {
+				started.Add(1)
+				_ = s.cs.Put(nil, o.id, o.val.Bytes())
+				done.Add(1)
+			}
+		}
+		waitPruneGoroutines()
+		total = cf.n.Load()
+		if k == 0 {
+			s.close()
+			return
+		}
+		cf.crashNow() // the run had fewer than k operations: the process dies at the end of the history
+		s.close()
+		mem.ResetToSyncedState()
+		mem.SetIgnoreSyncs(false)
+		ids := idPool(ops)
+		reopen := func(fs vfs.FS) string {
+			s2, err := memOpen(fs, capMB, node)
+			if err != nil {
+				return "openerr " + strings.ReplaceAll(err.Error(), " ", "_")
+			}
+			o := s2.observe("-", ids)
+			s2.close()
+			return fmt.Sprintf("ok %d %d %s", cdone, cstarted, o)
+		}
+		outD = reopen(mem)
+		outK = reopen(kept)
+	})
+	if !emit {
+		return total
+	}
+	if p {
+		c.Emit("%s d | panic %s", head, msg)
+		return total
+	}
+	c.Emit("%s d | %s", head, outD)
+	c.Emit("%s k | %s", head, outK)
+	c.Count("fscrash_points")
+	return total
+}
+
+// a short put history with at least one overwrite and one prune
+func fsCrashHistory(c *Ctx) (uint64, [32]byte, []stOp) {
+	r := c.Rng
+	node := genNode(c)
+	ids := genIds(c, node, false)
+	if len(ids) > 5 {
+		ids = ids[:5]
+	}
+	var ops []stOp
+	var vidc uint64 = uint64(r.Intn(1000)) * 1000
+	total := 0
+	n := 6 + r.Intn(5)
+	for i := 0; i < n; i++ {
+		id := ids[r.Intn(len(ids))]
+		if i == 2 {
+			id = ops[0].id // an overwrite
+		}
+		sz := r.Pick([]int{300000, 200000, 120000, 49968, 17, 300000})
+		if i == n-1 && total < 1100000 {
+			sz = 1100000 - total // over capacity at the latest with the last put
+		}
+		total += sz + 32
+		vidc++
+		ops = append(ops, stOp{kind: 'p', id: id, val: stVal{long: true, vid: vidc, n: sz}})
+	}
+	return 1, node, ops
+}
+
+func fsCrashGen(c *Ctx) {
+	r := c.Rng
+	nh, per := 3, 60
+	if c.Tier == "thorough" {
+		nh, per = 30, 1<<30
+	}
+	for h := 0; h < nh; h++ {
+		capMB, node, ops := fsCrashHistory(c)
+		total := fsCrashRun(c, capMB, node, ops, 0, false)
+		c.Count("fscrash_histories")
+		step := int64(1)
+		if total > int64(per) {
+			step = total / int64(per)
+		}
+		for k := int64(1) + int64(r.Intn(int(step))); k <= total+1; k += step {
+			fsCrashRun(c, capMB, node, ops, k, true)
+		}
+	}
+}
+
 func init() {
+	stExtraExec["fscrash"] = func(c *Ctx, f []string) {
+		var node [32]byte
+		copy(node[:], unhx(f[2]))
+		n, _ := strconv.ParseUint(f[1], 10, 64)
+		k, _ := strconv.ParseInt(f[4], 10, 64)
+		fsCrashRun(c, n, node, parseOps(f[3]), k, true) // emits both images of this crash point
+	}
 	stExtraExec["crash"] = func(c *Ctx, f []string) {
 		var node [32]byte
 		copy(node[:], unhx(f[2]))
@@ -101,5 +336,6 @@ func init() {
 				stCrash(c, capMB, node, ops, k)
 			}
 		}
+		fsCrashGen(c)
 	}
 }
